@@ -35,13 +35,14 @@ static Ctx C;
 static String S(const std::string& s) { return String(s.c_str(), s.size()); }
 
 // ------------------------------------------------------------------ scripted child program
+static bool childHasFd(simproc::Child* c, int fd) { NoPreempt np; return c->table.m.count(fd) != 0; }   /* (the table is the simulator's: read it atomically - kill() empties it) */
 static void childProgram(simproc::Child* c) {
   const RunSpec& s = *C.spec; unsigned char buf[4096];
   if (c->pid == C.pid2 || (C.pid && c->pid != C.pid)) {   // the second, simple process: 100 bytes on each redirected output, exit code 5
-    for (int fd = 1; fd <= 2; ++fd) if (c->table.m.count(fd)) { uint64_t& cnt = fd == 1 ? C.c2Out : C.c2Err; for (int q = 0; q < 100; ++q) buf[q] = codeByte(10 + fd, cnt + q); ssize_t r = write(fd, buf, 100); if (r > 0) { NoPreempt np; cnt += r; } }
+    for (int fd = 1; fd <= 2; ++fd) if (childHasFd(c, fd)) { uint64_t& cnt = fd == 1 ? C.c2Out : C.c2Err; for (int q = 0; q < 100; ++q) buf[q] = codeByte(10 + fd, cnt + q); ssize_t r = write(fd, buf, 100); if (r > 0) { NoPreempt np; cnt += r; } }
     c->exitCode = 5; return;
   }
-  bool hasOut = c->table.m.count(1) != 0, hasErr = c->table.m.count(2) != 0, hasIn = c->table.m.count(0) != 0;
+  bool hasOut = childHasFd(c, 1), hasErr = childHasFd(c, 2), hasIn = childHasFd(c, 0);
   for (size_t i = 0; i < s.plan.size() && !simproc::childKilled(c); ++i) {
     const Op& op = s.plan[i]; if (op.task != 1) continue;
     switch (op.code) {
@@ -59,7 +60,7 @@ static void childProgram(simproc::Child* c) {
         if (hasOut && op.a[1] % 2 == 0) { for (ssize_t q = 0; q < r; ++q) buf[q] = codeByte(1, C.childOut + q); ssize_t w = write(1, buf, r); if (w > 0) { NoPreempt np; C.childOut += w; } }
         if (simproc::childKilled(c)) break; }
       break; }
-    case C_CLOSE: { int fd = (int)(op.a[0] % 3); if (c->table.m.count(fd)) { close(fd); if (fd == 1) hasOut = false; else if (fd == 2) hasErr = false; else hasIn = false; } break; }
+    case C_CLOSE: { int fd = (int)(op.a[0] % 3); if (childHasFd(c, fd)) { close(fd); if (fd == 1) hasOut = false; else if (fd == 2) hasErr = false; else hasIn = false; } break; }
     }
   }
   c->exitCode = (int)simdrv::knob(s, "exit_code", 0);
